@@ -25,6 +25,9 @@ type c20CodecCase struct {
 	Type byte `json:"type"`
 	Pad  int  `json:"pad"`
 	Meta int  `json:"meta"` // index into c20CodecMetas: the ENCODING metadata
+	// Spell: spelling of the hex strings handed to the real codec (0 lower, 1 upper, 2 alternating);
+	// pad%3 in the enumeration, so every spelling meets a third of the padding lengths
+	Spell int `json:"hex_spelling"`
 }
 
 // three metadata sets: M0; M1 = M0 with the LAST nonce bit flipped (byte 15, bit 0); M2 = M0 with
@@ -118,6 +121,8 @@ var (
 
 // c20CodecRun returns ("", "") or (clause id, detail).
 func c20CodecRun(c *c20CodecCase) (id, detail string) {
+	c20Spell = c.Spell
+	defer func() { c20Spell = 0 }()
 	var r [2]string
 	val, stack := evidence.Catch(func() { r[0], r[1] = c20CodecRunInner(c) })
 	if val != nil {
@@ -288,6 +293,7 @@ func c20CodecEnumerate(sh *evidence.Shard) {
 		"type":              "0x01 hello, 0x02 ack, 0x00, 0x03 (invalid: encoder must refuse; reference-built packet must be rejected)",
 		"padding_length":    "every value 0..1024 (the whole range randomPaddingLength can draw)",
 		"encoding_metadata": "M0; M1 = M0 with nonce byte 15 bit 0 flipped; M2 = M0 with key byte 31 bit 7 flipped; every packet decoded under all three",
+		"hex_spelling":      "of the metadata strings given to the real codec: lower / UPPER / alternating case, by padding length mod 3",
 		"salt":              "real-encode direction: 8 SHA-derived bytes per case; reference-encode direction: all 0x00 (even pad) / all 0xff (odd pad)",
 		"mutations":         "each of the 264 single-bit flips of wire bytes 0..32; all 8 bits of the first and of the last padding byte; drop last/first byte; append 0x00/0xff; prepend one byte - each under all three metadata sets",
 	}
@@ -313,7 +319,7 @@ func c20CodecEnumerate(sh *evidence.Shard) {
 					p.Note("deadline reached at type %d pad %d", typ, pad)
 					return
 				}
-				c := &c20CodecCase{Type: typ, Pad: pad, Meta: mi}
+				c := &c20CodecCase{Type: typ, Pad: pad, Meta: mi, Spell: pad % 3}
 				p.Evaluations++
 				id, detail := c20CodecRun(c)
 				p.Class(typ, pad, mi, id)
